@@ -144,6 +144,12 @@ def _report(ctx, trace, info):
             what = ("Blockchain.ValidateBlock (block insertion, sync, fork adoption) accepts a block carrying %s; only OfflineDetector.ValidateBlock "
                     "(the proposal path of a voting validator) refuses it. First seen in world %s at height %s: %s"
                     % (GAP_WHAT.get(sig, sig), row.get("hid"), row.get("h"), json.dumps(slim)[:600]))
+            # a rule of this growth module's OWN specification, not a clause of a listed property (C10 speaks of the registry's
+            # consistency, not of who may be turned offline): recorded as an observation in the evidence, never as a verdict
+            note = "observation outside the listed properties (Offline.tla, ChainPathGap:%s): %s" % (sig, what[:500])
+            if not any(n.startswith(note[:90]) for n in ctx.notes):
+                ctx.notes.append(note)
+            continue
         else:
             key = "C10:OD:%s:%s" % (clause, _signature(clause, row))
             what = "clause %s broken by the real code in world %s (trace line %d): %s" % (clause, row.get("hid"), line, json.dumps(slim)[:900])
